@@ -352,6 +352,7 @@ public:
       if (ce && !ce->inputs.empty() && r.chance(2, 3)) in = ce->inputs[r.below(ce->inputs.size())];
       else { size_t n = (size_t)r.below(r.chance(1, 4) ? 64 : 8); for (size_t k = 0; k < n; k++) in.push_back((char)(r.chance(1, 5) ? r.below(256) : 32 + r.below(95))); }
       if (fShortIn && !in.empty() && r.chance(1, 2)) in.resize((size_t)r.below(in.size()));     // EOF earlier than the program expects
+      spiceInput(r, in);
       Json op = Json::object(); op["op"] = "input"; op["hex"] = sim::toHex(in); ops.push(op);
     }
     if (mode != "c02" && fPoweron) {
@@ -380,6 +381,7 @@ public:
           op["op"] = in ? "simin" : "simout_pre";
           op["idx"] = (unsigned long long)r.below(8);
           std::string d; size_t len = (size_t)r.below(6); for (size_t q = 0; q < len; q++) d.push_back((char)r.below(256));
+          spiceInput(r, d);
           op["hex"] = sim::toHex(d);
           ops.push(op);
         }
@@ -401,6 +403,18 @@ public:
     return plan;
   }
 
+  // Bytes that text-mode or line-oriented input handling would treat specially (CR, LF, CR LF pairs, NUL, 0xFF,
+  // Ctrl-Z, Ctrl-D, TAB, DEL): a read system call must deliver each of them as one byte like any other (seeded C02-15).
+  static void spiceInput(Rng &r, std::string &d) {
+    if (d.empty() || !r.chance(1, 2)) return;
+    static const unsigned char special[] = {0x0d, 0x0a, 0x00, 0xff, 0x1a, 0x04, 0x09, 0x7f, 0x80, 0x1b, 0x0c, 0x08};
+    unsigned n = 1 + (unsigned)r.below(3);
+    for (unsigned k = 0; k < n; k++) {
+      size_t at = (size_t)r.below(d.size());
+      if (r.chance(1, 2) && at + 1 < d.size()) { bool crlf = r.chance(2, 3); d[at] = crlf ? '\r' : '\n'; d[at + 1] = crlf ? '\n' : '\r'; }
+      else d[at] = (char)special[r.below(sizeof special)];
+    }
+  }
   Json makeTeleport(Rng &r, uint64_t maxSteps, uint32_t imgWords, const std::string &mode) {
     static const uint32_t corner[] = {0, 1, 0x7FFFFFFF, 0x80000000u, 0x80000001u, 0xFFFFFFFFu, 0xFFFFFFF0u, 0xFFFFFF00u, 0x000FFFFF, 0x00100000, 199999, 200000, 799999};
     auto val = [&]() -> uint32_t { return r.chance(1, 2) ? corner[r.below(sizeof corner / sizeof corner[0])] : r.chance(1, 2) ? (uint32_t)r.below(imgWords * 4 + 64) : r.u32(); };
